@@ -73,7 +73,19 @@ class C18(Check):
             stream = ''.join(d + ']]>]]>' for d in docs).encode()
             ncuts = rng.choice([0, 0, 1, 2, 4])
             cuts = sorted(set(rng.randint(1, len(stream) - 1) for _ in range(ncuts)))
-            out.append({'kind': 'prop', 'docs': docs, 'filters': flts, 'cuts': cuts, 'ele': i % 3 == 0})
+            late = [0] if (k >= 2 and i % 4 == 1) else []      # the first request's caller timed out; its reply arrives late, before the others
+            out.append({'kind': 'prop', 'docs': docs, 'filters': flts, 'cuts': cuts, 'ele': i % 3 == 0, 'late': late})
+        # two sessions in one process, the same filter text, their reads interleaved (every cut of a short stream with a wrapper
+        # element above the filter root, plus random ones): each must get what it gets alone
+        wrap = ['<rpc-reply message-id="m1" xmlns:junos="http://xml.juniper.net/junos/1.0"><data><configuration><system><host-name>r%d</host-name><x>1</x></system><y>2</y></configuration></data></rpc-reply>' % k for k in (1, 2)]
+        wf = '<configuration><system><host-name/></system></configuration>'
+        sa = (wrap[0] + ']]>]]>').encode()
+        for cut in range(1, len(sa) - 8, 1 if tier == 'thorough' else 3):
+            out.append({'kind': 'pair', 'filter': wf, 'a': wrap[0], 'b': wrap[1], 'cut': cut})
+        for i in range(30 if tier == 'quick' else 600):
+            da, db = G.gen_reply_good(rng, 'm1'), G.gen_reply_good(rng, 'm1')
+            f = G.paths_filter(rng, da)
+            out.append({'kind': 'pair', 'filter': f, 'a': da, 'b': da if i % 2 else db, 'cut': rng.randint(1, len(da.encode()) - 1)})
         for i in range(40 if tier == 'quick' else 1500):
             doc = G.gen_reply(rng, 'm1')
             out.append({'kind': 'prop', 'docs': [doc], 'filters': [G.paths_filter(rng, doc)], 'cuts': []})
@@ -86,6 +98,14 @@ class C18(Check):
 
     def run_impl(self, case):
         from impl.junos_sax import run
+        if case['kind'] == 'pair':
+            from impl.junos_sax import run_pair
+            sa, sb = (case['a'] + ']]>]]>').encode(), (case['b'] + ']]>]]>').encode()
+            both = run_pair(case['filter'], sa, case['cut'], sb)
+            alone_a = run(True, [case['filter']], [sa[:case['cut']], sa[case['cut']:]])
+            alone_b = run(True, [case['filter']], [sb])
+            return {'a': both['a'], 'b': both['b'], 'error': both['error'], 'alone_a': alone_a['replies'][0], 'alone_b': alone_b['replies'][0],
+                    'alone_err': [alone_a['error'], alone_b['error']]}
         if case['kind'] == 'sax':
             doc = case['doc']
             if case['lookup'] == 'u':
@@ -93,8 +113,8 @@ class C18(Check):
             r = run(True, [case['filter']], [(doc + ']]>]]>').encode()], as_element=case.get('ele', False))
             return {'reply': r['replies'][0], 'error': r['error']}
         stream, segs = self._segs(case)
-        r = run(True, case['filters'], segs, as_element=case.get('ele', False))
-        off = run(False, [None] * len(case['docs']), segs)
+        r = run(True, case['filters'], segs, as_element=case.get('ele', False), timed_out=case.get('late', ()))
+        off = run(False, [None] * len(case['docs']), segs, timed_out=case.get('late', ()))
         return {'replies': r['replies'], 'error': r['error'], 'off': off['replies']}
 
     def model_lines(self, case):
@@ -130,6 +150,11 @@ class C18(Check):
         return None
 
     def oracle(self, case, io):
+        if case['kind'] == 'pair':
+            if io['a'] != io['alone_a'] or io['b'] != io['alone_b'] or (io['error'] and not any(io['alone_err'])):
+                return ('C18:sessions-interfere', 'two sessions using the same filter text, reads interleaved at octet %d of the first: session A got %r (alone: %r), '
+                        'session B got %r (alone: %r), error %s' % (case['cut'], (io['a'] or '')[:80], (io['alone_a'] or '')[:80], (io['b'] or '')[:80], (io['alone_b'] or '')[:80], io['error']))
+            return None
         if case['kind'] == 'sax':
             if case['lookup'] == 'n' and io['reply'] != case['doc']:
                 return ('C18:no-filter-not-transparent', 'without a filter the reply differs from what the server sent')
@@ -169,6 +194,8 @@ class C18(Check):
     def nontrivial(self, case, io):
         if case['kind'] == 'sax':
             return case['lookup'] == 'f'
+        if case['kind'] == 'pair':
+            return True
         return any(case['filters']) or bool(case['cuts'])
 
     def search(self, tier, rng, broken):
